@@ -36,7 +36,7 @@ type Import struct {
 }
 
 type Expr struct {
-	K        string `json:"k"` // lit | var | call | new | lambda
+	K        string `json:"k"` // lit | var | call | new | lambda | mref
 	Text     string `json:"text"`
 	RecvKind string `json:"recvKind"` // none | this | var | static | call
 	Recv     string `json:"recv"`
@@ -291,6 +291,9 @@ func (rd *renderer) expr(e *Expr) {
 		w.s("(")
 		rd.args(e.Args)
 		w.s(")")
+	case "mref": // a method reference whose receiver is a type: Objects::nonNull
+		rd.ref(e.Type)
+		w.s(e.Type + "::" + e.Callee)
 	case "lambda":
 		if e.Type != "" {
 			// an explicitly typed parameter: a declaration like any other parameter, visible in the body
